@@ -3,7 +3,7 @@
 From Coq Require Import ZArith List Bool Arith Lia.
 From Coq Require Import QArith.
 From RV Require Import Val Syntax Rho Offline Online Sat IA Pastify Jitter Units Support Lexer Parser Elab Dense DenseSem DenseMerge DenseOnlineMerge DenseOnlineFold DenseOnlineWin DenseEval DenseWin DenseVisitor DenseSat Explain ExtZ.
-From RV Require DenseOnlineMon ParserDeclOracle.
+From RV Require DenseOnlineMon DenseOnlineForest ParserDeclOracle.
 Import ListNotations.
 
 Definition zformula := @formula ExtZVal.
@@ -115,6 +115,18 @@ Definition run_onlwin (kind : nat) (a b : Z) (bs : list (list (Z * extz))) :=
 (* the whole dense-time online monitor: one update() per element of envs (a batch per variable index); the lists the calls return *)
 Definition run_onlmon (pk : zformula -> zformula -> pkind) (p : zformula) (envs : list (list (list (Z * extz)))) : option (list (list (tz * extz))) :=
   option_map snd (DenseOnlineMon.mon_run ExtZArith pk p (DenseOnlineMon.mon_init p) envs).
+
+(* the dense-time online monitor of several assertions (the forest F, references inlined): one update() per element of envs;
+   per update: what update() returns, get_value of every assertion, get_value(printed sub-formula) for every q of Q *)
+Definition run_onlforest (pk : zformula -> zformula -> pkind) (F Q : list zformula) (envs : list (list (list (Z * extz))))
+  : option (list (list (tz * extz)) * list (list (list (tz * extz)) * list (option (list (tz * extz))))) :=
+  match DenseOnlineForest.forest_run_out ExtZArith pk F (DenseOnlineForest.forest_init F) envs,
+        DenseOnlineForest.forest_run ExtZArith pk F (DenseOnlineForest.forest_init F) envs with
+  | Some (_, rets), Some (_, rs) =>
+      Some (rets, map (fun r => (map (fun j => DenseOnlineForest.forest_get j r) (seq 0 (length F)),
+                                 map (fun q => DenseOnlineForest.forest_get_sub q r) Q)) rs)
+  | _, _ => None
+  end.
 
 (* parse() of a whole specification text: ParserDeclOracle.run_parsefile *)
 Definition run_parsefile := ParserDeclOracle.run_parsefile.
